@@ -26,25 +26,25 @@ CHECKS = {
  "C16": dict(
    engine="simcheck (shuttle runtime + own seeded scheduler)",
    technique="deterministic simulation: real dot_f64 under a seeded/recorded thread scheduler and a simulated CPU count; seeded search over schedules x configurations; Miri many-seeds cross-check (thorough)",
-   text="Seeded exploration of (length, CPU count, data, schedule): the shipped dot_f64 runs as shuttle tasks whose every scheduling decision comes from VERIF_SEED and is recorded; every (len 0..=200) x (CPUs 1..=16) pair is visited in every tier, plus lengths to 5000 and CPU counts to 200; oracles are exact-integer bit identity (-0.0 is not +0.0), a reassociation error bound, basis probes (each index covered exactly once), bit-identity across schedules and repeated calls, no panic/deadlock/hang, operands intact, no memory of earlier calls (another product before, an in-place change after). Thorough tier adds the unhooked crate on real threads under restricted CPU affinity and under Miri many-seeds. Sampling of schedules, not proof.",
+   text="Seeded exploration of (length, CPU count, data, schedule): the shipped dot_f64 runs as shuttle tasks whose every scheduling decision comes from VERIF_SEED and is recorded; every (len 0..=200) x (CPUs 1..=16) pair is visited in every tier, plus lengths to 5000 and CPU counts to 200; oracles are exact-integer bit identity (-0.0 is not +0.0), a reassociation error bound, basis probes (each index covered exactly once), bit-identity across schedules and repeated calls, no panic/deadlock/hang, operands intact, no memory of earlier calls (another product before under a larger CPU count, an in-place change after, the self-product v.v), a concurrent second caller, every association of the rounded products for lengths 2..4; injected faults: stalled workers, refused thread creation (through std::thread::Builder), a CPU count that alternates between consultations. A band of million-element vectors is included. Thorough tier adds the unhooked crate on real threads under restricted CPU affinity and under Miri many-seeds. Sampling of schedules, not proof.",
    design="§4.1",
    note="Trusted: shuttle's model of std::thread::scope/spawn/join; the CPU-count override standing in for num_cpus::get (cross-checked by Miri with real std threads and -Zmiri-num-cpus in the thorough tier); the Dot2 reference and the gamma(n) bound for general floats; a 30 s wall-clock watchdog as the only real clock (never influences a choice)."),
  "C17": dict(
    engine="simcheck (scripted-callback simulator with fault script)",
    technique="deterministic simulation of the user function / user Jacobian as a scripted, recording, fault-injecting peer of the Newton iteration protocol; seeded search over scripts, fault keyings (evaluation index, region) and parameters; reference-model Newton step; restart-composition and replay oracles; shrinking",
-   text="All six real solve/solve_jacobian methods run against a simulated user function that answers from a script (polynomials in product form, exp/sin equations, strictly diagonally dominant systems of dimension 1..6; root-free, non-differentiable and constant scripts), injects NaN/+-Inf/1e300 at a chosen evaluation index, user-Jacobian call or region, counts and hashes every call and aborts runaway solvers. Oracles: returns (no panic; runaway evaluation counts stopped by the callback, silent loops by a wall-clock watchdog), evaluations <= E*max_iter+1 and zero work with max_iter=0, parameters() untouched; 2..12 further calls on the SAME object bit-identical in result and call history; the same object reconfigured through its setters (iterations, guess, delta, tolerance) answers like a fresh one; another object solving another problem on the same thread first changes nothing; failure payload is the last iterate (restart composition, one-step reference model), no Ok on scripts whose stopping criterion cannot be met, in-basin success within O(tol) of the root, Ok-implies-near-a-root anywhere. Seeded sampling, not proof; the in-basin/anywhere halves are numerical sampling that simulation merely hosts.",
+   text="All six real solve/solve_jacobian methods run against a simulated user function that answers from a script (polynomials in product form, exp/sin equations, strictly diagonally dominant systems of dimension 1..6; root-free, non-differentiable and constant scripts), injects NaN/+-Inf/1e300 at a chosen evaluation index, user-Jacobian call or region, counts and hashes every call and aborts runaway solvers. Oracles: returns (no panic; runaway evaluation counts stopped by the callback, silent loops by a wall-clock watchdog), evaluations <= 2*E*max_iter+2 (the property names no constant) and at most one evaluation with max_iter=0, parameters() untouched; 2..12 further calls on the SAME object bit-identical in result and call history; the same object reconfigured through its setters (iterations, guess, delta, tolerance) answers like a fresh one; another object solving another problem on the same thread first changes nothing; failure payload is the last iterate (restart composition, one-step reference model), no Ok on scripts whose stopping criterion cannot be met, in-basin success within O(tol) of the root, Ok-implies-near-a-root anywhere. Seeded sampling, not proof; the in-basin/anywhere halves are numerical sampling that simulation merely hosts.",
    design="§4.3",
-   note="Trusted: per-iteration evaluation cost E of the documented scheme (3 scalar, n+2 finite-difference systems, 1+1 user Jacobian) with one residual evaluation of slack; basin radii derived in DESIGN.md §4.3; harness-side reference arithmetic (complex helpers, Gaussian elimination); under injected faults no Ok/Err expectation."),
+   note="Trusted: per-iteration evaluation cost E of the documented scheme (3 scalar, n+2 finite-difference systems, 1+1 user Jacobian), doubled, as the meaning of "bounded work"; basin radii derived in DESIGN.md §4.3; harness-side reference arithmetic (complex helpers, Gaussian elimination); under injected faults no Ok/Err expectation."),
  "C18": dict(
    engine="simcheck (scripted-callback simulator)",
    technique="deterministic simulation of the user map as a scripted, recording, possibly faulty peer: stencil classification, table/affine/smooth environments, injected NaN/Inf/panic; seeded search with shrinking",
-   text="The real Mat64::jacobian / Matrix::<Cmplx>::jacobian_cmplx run against a simulated user function that classifies every evaluation point against the forward stencil, answers from a script (affine-dyadic: J == M bit for bit; arbitrary table on the stencil, NaN off it; smooth with known derivative: O(delta) bound) and injects NaN/Inf at chosen stencil points or a panic at a chosen evaluation. All 36 shapes 1..6 x 1..6 (m<n, m=n, m>n), real and complex, are enumerated in every tier; the rest is seeded sampling. 40 % of the cases run a call history first (same routine/same point/other map; a Newton solve converging onto the point), 10 % have the map call the routine re-entrantly. Oracles: shape, entries, fault containment (exactly the entries fed a non-finite value are non-finite), panic propagation.",
+   text="The real Mat64::jacobian / Matrix::<Cmplx>::jacobian_cmplx run against a simulated user function that classifies every evaluation point against the forward stencil, answers from a script (affine-dyadic: J == M bit for bit; arbitrary table on the stencil, NaN off it; smooth with known derivative: O(delta) bound) and injects NaN/Inf at chosen stencil points or a panic at a chosen evaluation. All 36 shapes 1..6 x 1..6 (m<n, m=n, m>n), real and complex, are enumerated in every tier; the rest is seeded sampling. 40 % of the cases run a call history first (same routine/same point/other map; a Newton solve converging onto the point), 10 % have the map call the routine re-entrantly. Oracles: shape, entries, fault containment (exactly the entries fed a non-finite value are non-finite; a loud refusal is accepted), panic propagation, loud refusal of a map that returns too few components. Repeated under 2- and 4-CPU affinity.",
    design="§4.4",
    note="Trusted: the stencil classification tolerance (bitwise on dyadic data, 2 ulp otherwise); rounding tolerances on non-dyadic data; the callback is the only channel through which the routine sees the map. Order/multiplicity of evaluations is not constrained here."),
  "C19": dict(
    engine="simcheck (simulated disk with fault plan + reference mesh model)",
    technique="deterministic simulation: histories of mesh operations against a reference model, with the file system behind Mesh1D::output/read replaced by a seeded fault-injecting in-memory disk (short/EINTR/failed/zero writes, short/EINTR/failed reads, refused create/open); seeded search with shrinking",
-   text="Real Mesh1D/Mesh2D code under seeded histories of 5..40 operations (set/get/Index/IndexMut, interpolation at nodes / mid-cell / interior points, 1-D and 2-D trapezium with exact and closed-form oracles, assign/apply, cross-sections that join the pool of live meshes, a sibling 2-D mesh of equal extents swapped in and out, var_as_matrix, output and read into fresh/shorter/longer/live meshes; grids up to 2^13 from the origin; interpolation points as close as 1e-6 to a node), mirrored by a reference model and compared through every access path after every step. output/read run their real formatting, write_all, read_to_string and parsing against a simulated disk that injects transient faults (which must be absorbed: full round trip required) and hard faults (after which the call may refuse by panicking; flagged are acknowledged-but-wrong files, reads that return wrong data, a changed writer). Seeded sampling of histories and fault placements, not proof.",
+   text="Real Mesh1D/Mesh2D code under seeded histories of 5..40 operations (set/get/Index/IndexMut, interpolation at nodes / mid-cell / interior points, 1-D and 2-D trapezium with exact and closed-form oracles, assign/apply, cross-sections that join the pool of live meshes, a sibling 2-D mesh of equal extents swapped in and out, var_as_matrix, output and read into fresh/shorter/longer/live meshes; grids up to 2^13 from the origin; interpolation points as close as 1e-6 to a node), mirrored by a reference model and compared through every access path after every step. output/read run their real formatting, write_all, read_to_string and parsing against a simulated disk that injects transient faults (which must be absorbed: full round trip required) and hard faults (after which the call may refuse by panicking; flagged are acknowledged-but-wrong files, reads that return wrong data, a changed writer). Repeated under 2- and 3-CPU affinity. Seeded sampling of histories and fault placements, not proof.",
    design="§4.2",
    note="Trusted: the in-memory disk's model of create(truncate)/write/read/close; that short transfers and EINTR are legal for successful calls; tolerances for printed precision and rounded quadrature/interpolation; crash/torn-write/bit-flip faults are deliberately not injected (the property claims no durability)."),
 }
